@@ -76,6 +76,9 @@ class FFCXBackendSymbols:
         self.quadrature_weight_tables = {}
         self.element_tables = {}
 
+        # Kernel-local numbering of domains (in order of first use)
+        self.domain_numbers = {}
+
         # Reusing a single symbol for all quadrature loops, assumed not to be nested.
         self.quadrature_loop_index = L.Symbol("iq", dtype=L.DataType.INT)
 
@@ -138,10 +141,12 @@ class FFCXBackendSymbols:
 
     def J_component(self, mt):
         """Jacobian component."""
-        return L.Symbol(
-            format_mt_name(f"J{ufl.domain.extract_unique_domain(mt.expr).ufl_id()}", mt),
-            dtype=L.DataType.REAL,
-        )
+        # Distinguish the Jacobians of different meshes by a kernel-local
+        # number: ufl_id() is a process-wide counter and would make the
+        # generated code depend on how many meshes were created before
+        domain = ufl.domain.extract_unique_domain(mt.expr)
+        number = self.domain_numbers.setdefault(domain.ufl_id(), len(self.domain_numbers))
+        return L.Symbol(format_mt_name(f"J{number}", mt), dtype=L.DataType.REAL)
 
     def domain_dof_access(self, dof, component, gdim, num_scalar_dofs, restriction):
         """Domain DOF access."""
